@@ -15,12 +15,12 @@ import os
 from . import common, ptrace, tlc
 
 PID = "C12"
-PRIORS = ["none", "good", "bak", "tmp", "both"]
+PRIORS = ["none", "good", "bak", "tmp", "both", "symlink"]
 
 
 def count_ops(ext, split, prior):
     from .pdrv import PDriver
-    d = PDriver(ext, split=split)
+    d = PDriver(ext, split=split, symlink=prior == "symlink")
     _build_prior(d, prior)
     d.mutate()
     _, n = d.save()
@@ -30,6 +30,8 @@ def count_ops(ext, split, prior):
 def _build_prior(d, prior):
     if prior == "none":
         return
+    if prior == "symlink":
+        prior = "good"       # a good file reached through a symbolic link in another directory
     d.mutate()
     _, n = d.save()                        # good main
     if prior in ("bak", "both"):
@@ -47,7 +49,7 @@ def scenario(args):
     logging.disable(logging.CRITICAL)
     from .pdrv import PDriver
     ext, split, prior, kind, k, seed = args
-    d = PDriver(ext, split=split, seed=seed)
+    d = PDriver(ext, split=split, seed=seed, symlink=prior == "symlink")
     _build_prior(d, prior)
     d.mutate()
     if kind == "fail":
@@ -80,7 +82,7 @@ def run(tier):
         tlc.must_ok(r, cfgname)
         rep.add_tlc(cfgname, r)
     jobs = []
-    priors = PRIORS if tier == "thorough" else ["none", "good", "both"]
+    priors = PRIORS if tier == "thorough" else ["none", "good", "both", "symlink"]
     for ext, splits in (("json", [0]), ("pickle", [0, 48] if tier == "quick" else [0, 16, 48])):
         for split in splits:
             for prior in priors:
